@@ -133,7 +133,12 @@ def run(ctx):
         for sp, ep in combos:
             c0 = build(spec0)
             c1 = build(spec1) if spec1 is not None else None
-            m, e = call(tx.miter, c0, c1, set(sp) if sp is not None else None, set(ep) if ep is not None else None)
+            as_list = (len(det_combo := (sp, ep)) and (hash(str(det_combo)) % 2 == 0))
+            conv = (lambda x: sorted(x)) if as_list else (lambda x: set(x))
+            m, e = call(tx.miter, c0, c1, conv(sp) if sp is not None else None, conv(ep) if ep is not None else None)
+            ctx.unchanged("miter", c0, spec0)
+            if c1 is not None:
+                ctx.unchanged("miter", c1, spec1)
             det = {"case": cid, "c0": spec0, "c1": spec1, "startpoints": sp, "endpoints": ep}
             if e is not None:
                 ctx.side("miter-raises", False, f"miter:raises:{type(e).__name__}", f"miter raised {e!r}", det)
